@@ -435,11 +435,43 @@ theorem identifierListLoop_spec : ∀ (fuel : Nat) (acc : List Ident), acc ≠ [
     hoare
     · exact T.anyQ (ih _ (by simp))
 
+theorem identifierListLoop_real_spec : ∀ (fuel : Nat) (acc : List Ident), acc ≠ [] → (∀ id ∈ acc, RealIdent src id) →
+    T src Tr (identifierListLoop fuel acc) (fun l _ => l ≠ [] ∧ ∀ id ∈ l, RealIdent src id) := by
+  intro fuel
+  induction fuel with
+  | zero => intro acc _ _; unfold identifierListLoop; exact T.throw _ (fun _ _ => trivial)
+  | succ n ih =>
+    intro acc hacc hreal
+    unfold identifierListLoop
+    refine T.bind (skipped_spec _) (fun b => ?_)
+    refine T.ite (fun _ => ?_) (fun _ => T.pure _ (fun _ _ => ⟨hacc, hreal⟩))
+    refine T.bindP (T.anyQ (identifier_spec _)) ⟨fun id hid => ?_⟩
+    refine T.anyQ (ih _ (by simp) ?_)
+    intro x hx
+    simp only [List.mem_append, List.mem_singleton] at hx
+    rcases hx with hx | rfl
+    · exact hreal x hx
+    · exact hid
+
 theorem identifierList_spec (first : Option Ident) :
     T src Tr (identifierList first) (fun l _ => l ≠ []) := by
   unfold identifierList
   hoare
   all_goals first | exact T.anyQ (identifierListLoop_spec _ _ (by simp)) | skip
+
+/-- a fresh identifier list (names of a var / const spec, of a field, of a parameter group): every name is an
+    identifier token of the source -/
+theorem identifierList_none_spec :
+    T src Tr (identifierList none) (fun l _ => l ≠ [] ∧ ∀ id ∈ l, RealIdent src id) := by
+  unfold identifierList
+  dsimp only
+  refine T.bindP (T.anyQ (identifier_spec _)) ⟨fun first hfirst => ?_⟩
+  refine T.bind loopFuel_spec (fun fuel => ?_)
+  refine T.anyQ (identifierListLoop_real_spec _ _ (by simp) ?_)
+  intro x hx
+  simp only [List.mem_singleton] at hx
+  subst hx
+  exact hfirst
 
 theorem stringLiteralOrNone_spec : T src Tr stringLiteralOrNone (fun _ _ => True) := by
   unfold stringLiteralOrNone
